@@ -603,10 +603,18 @@ func (fx *FuncExec) callSiteName(fn *ssa.Function, cc *ssa.CallCommon, callee *s
 
 func (fx *FuncExec) runAnchors(fn *ssa.Function, ac *Contract, st *State, reach *Term, want string, args []Value, src string) *Term {
 	for _, a := range ac.Anchors {
-		if normFuncName(a.Anchor) != normFuncName(want) {
+		if strings.HasSuffix(a.Anchor, "#*") {
+			// every call of that function, each site giving an obligation of its own (label#ordinal)
+			i := strings.LastIndex(want, "#")
+			if i < 0 || normFuncName(strings.TrimSuffix(a.Anchor, "*")) != normFuncName(want[:i+1]) {
+				continue
+			}
+			a.Label = a.Label + want[i:]
+			a.Clause.Label = a.Label
+		} else if normFuncName(a.Anchor) != normFuncName(want) {
 			continue
 		}
-		fx.anchorHit[ac.Func+"|"+a.Anchor+"/"+a.Label] = true
+		fx.anchorHit[ac.Func+"|"+a.Anchor+"/"+strings.SplitN(a.Label, "#", 2)[0]] = true
 		env := &cenv{fx: fx, fn: fn, st: st, old: fx.entryFor(fn), con: ac, binds: map[string]Value{}, body: true, reach: reach}
 
 		for i, v := range args {
